@@ -102,13 +102,25 @@ def compare(plan):
     parts = rs["parts"]
     lazy = bool(rs.get("lazy"))
     res = {}
+    stopped = {}
+    compare.last_stopped = None
     for shape, kw in (("split", dict(parts=parts, lazy=lazy)), ("whole", dict(lazy=(not lazy) if rs.get("flip_lazy") else lazy)),
                       ("run", dict(lazy=lazy)), ("steps", dict(lazy=lazy))):
         try:
             res[shape] = run_shape(plan, shape, **kw)
         except Exception as e:
-            out.append(V("C15", "run_stopped", -1, f"{shape}: {type(e).__name__}: {e}", key=f"C15/run_stopped/{type(e).__name__}"))
-            return out, digest(("err", shape))
+            stopped[shape] = (type(e).__name__, str(e)[:300])
+    if stopped:
+        kinds = {t for t, _ in stopped.values()}
+        if len(stopped) == 4 and len(kinds) == 1:
+            # an exception escaping HIVE stops every execution shape alike: nothing to compare, the run is counted as aborted
+            # (what stops it is not this property's business; stopping in some shapes only would be)
+            compare.last_stopped = "all four execution shapes stopped with %s: %s" % next(iter(stopped.values()))
+            return out, digest(("stopped", sorted(kinds)))
+        shape, (t, msg) = sorted(stopped.items())[0]
+        out.append(V("C15", "run_stopped", -1, f"{shape} stopped with {t}: {msg}; " + (f"completed: {sorted(res)}" if res else f"other shapes: {stopped}"),
+                     key=f"C15/run_stopped/{t}"))
+        return out, digest(("err", sorted(stopped)))
     A, B, C, D = res["split"], res["whole"], res["run"], res["steps"]
     n_expected = len(range(int(start), int(end), int(dt)))
     if n != n_expected:
@@ -197,6 +209,8 @@ class C15Driver:
             aborted = run0.aborted
         compare.last_states, compare.last_events = [], 0
         vs, h = compare(plan)
+        if getattr(compare, "last_stopped", None):
+            aborted = aborted or compare.last_stopped
         n_events = compare.last_events
         res = {"seed": seed, "viol": [dict(v) for v in vs[:4]], "stats": {"crank_split": max(0, len(plan["run"]["parts"]) - 1),
                                                                             "lazy_io": int(bool(plan["run"].get("lazy")) or bool(plan["run"].get("flip_lazy"))),
